@@ -144,6 +144,8 @@ pub struct Obs {
 	pub masked: Vec<String>,
 	open: BTreeSet<String>,
 	strict: bool,
+	/// findings that stay masked under --strict (env VERIF_STRICT_EXCEPT, used to isolate one finding)
+	except: BTreeSet<String>,
 }
 
 impl Obs {
@@ -166,7 +168,7 @@ impl Obs {
 	/// Is the deviation with this finding id an open known finding (and masks enabled)?
 	/// Records the masking when it is.
 	pub fn known(&mut self, id: &str) -> bool {
-		if !self.strict && self.open.contains(id) {
+		if (!self.strict || self.except.contains(id)) && self.open.contains(id) {
 			self.masked.push(id.to_string());
 			true
 		} else {
@@ -175,7 +177,7 @@ impl Obs {
 	}
 	/// Same as `known` but does not count.
 	pub fn is_open(&self, id: &str) -> bool {
-		!self.strict && self.open.contains(id)
+		(!self.strict || self.except.contains(id)) && self.open.contains(id)
 	}
 }
 
@@ -357,7 +359,8 @@ impl Ctx {
 	}
 
 	pub fn new_obs(&self) -> Obs {
-		Obs { open: self.open.clone(), strict: self.strict, ..Obs::default() }
+		let except = std::env::var("VERIF_STRICT_EXCEPT").map(|s| s.split(',').map(|x| x.trim().to_string()).collect()).unwrap_or_default();
+		Obs { open: self.open.clone(), strict: self.strict, except, ..Obs::default() }
 	}
 
 	fn replay_dir(&self) -> PathBuf {
@@ -670,7 +673,7 @@ pub struct EnumRec {
 
 impl EnumRec {
 	pub fn obs(&self) -> Obs {
-		Obs { open: self.obs_template.open.clone(), strict: self.obs_template.strict, ..Obs::default() }
+		Obs { open: self.obs_template.open.clone(), strict: self.obs_template.strict, except: self.obs_template.except.clone(), ..Obs::default() }
 	}
 	/// record one evaluated case
 	pub fn case(&mut self, case_repr: impl FnOnce() -> Value, hash: u64, obs: Obs, result: PropResult) {
@@ -739,6 +742,19 @@ fn load_saved(property: &str) -> Vec<(PathBuf, String, Value)> {
 		out.push((p, sub, v["case"].clone()));
 	}
 	out
+}
+
+/// The repository prints diagnostics (eprintln!) on hot paths; send fd 2 to /dev/null for the rest of the run.
+pub fn silence_stderr() {
+	if std::env::var_os("VERIF_KEEP_STDERR").is_some() {
+		return;
+	}
+	if let Ok(f) = std::fs::OpenOptions::new().write(true).open("/dev/null") {
+		use std::os::fd::AsRawFd;
+		unsafe {
+			libc::dup2(f.as_raw_fd(), 2);
+		}
+	}
 }
 
 // ---------------------------------------------------------------------------------------------
